@@ -19,7 +19,7 @@ TRUST = "Trusted: Kani 0.68/CBMC 6.11/CaDiCaL, the MIR of Kani's pinned rustc, K
 # ---------------------------------------------------------------------------------------------------------------- C18
 add = prop("C18", "c18",
  "Bounded model checking of the real BitEnc / FenwickTree / SmallInts code: for every listed script shape (kinds and counts of operations concrete, every stored value, set index and observed index symbolic) the solver shows that all observers (nr_symbols, nr_blocks, get incl. out-of-range, iter, is_empty) agree with a plain vector model, for ALL values at once. Right level because the defects here live in rare shape/value corners (phantom slot for widths not dividing 32, unmasked fill value) that sampling misses and the solver returns as satisfying assignments.",
- "Bound: BitEnc widths 1..=8; scripts push^a;push_values(n);push;set with a in {1,per-1,per}, n in {0,1,2,per-2..per+1,2per-1,2per+1} (per = values per block) plus five history scripts per width (fill first, clear+reuse, consecutive fills); Fenwick trees of length <=8 with <=4 updates; SmallInts from_elem/set. " + TRUST + "Outside: longer scripts, symbolic operation kinds, set() beyond len.",
+ "Bound: BitEnc widths 1..=8; scripts push^a;push_values(n);push;set with a in {1,per-1,per}, n in {0,1,2,per-2..per+1,2per-1,2per+1} (per = values per block) plus five history scripts per width (fill first, clear+reuse, consecutive fills); Fenwick sum/max trees of length <=8 with <=4 updates (max over pairs: length 5, 3 updates); SmallInts from_elem/set. " + TRUST + "Outside: longer scripts, symbolic operation kinds, set() beyond len.",
  ["bio::data_structures::bitenc::BitEnc::{new,push,push_values,set,get,iter,clear,nr_blocks,nr_symbols,is_empty,addr,set_by_addr,get_by_addr}", "bio::data_structures::bitenc::BitEncIter::next", "bio::data_structures::bit_tree::FenwickTree::{new,get,set} for SumOp/MaxOp over u32 and MaxOp over (u32,u32)", "bio::data_structures::smallints::SmallInts::<i8,isize>::{from_elem,set,get,len}"],
  "see level_note; per-instance bounds are in coverage.samples[].bound",
  "scripts with symbolic operation kinds or counts (Vec::resize with a symbolic length exhausts memory: measured), SmallInts push/set scripts (BTreeMap::insert in the cone: out of memory at 24 GB)",
